@@ -489,7 +489,10 @@ static void run_stream(FILE *in)
         char *fn; if (asprintf(&fn, "%s/w.conf", dir) < 0) abort();
         FILE *f = fopen(fn, "rb"); char *b = NULL; size_t len = 0, capb = 0; int ch;
         while ((ch = fgetc(f)) != EOF) { if (len + 1 > capb) { capb = capb ? 2 * capb : 256; b = realloc(b, capb); } b[len++] = (char) ch; }
-        fclose(f); printf(" bytes="); enc_n(b ? b : "", len); free(b); free(fn);
+        struct stat wsb;
+        fclose(f); printf(" bytes="); enc_n(b ? b : "", len); free(b);
+        if (stat(fn, &wsb) == 0 && (wsb.st_mode & 07777) != 0644) printf(" MODE=%o", (unsigned) (wsb.st_mode & 07777));
+        free(fn);
       }
       putchar('\n'); free(dir);
     } else if (!strcmp(c, "reread")) {
@@ -558,6 +561,15 @@ static void run_stream(FILE *in)
         if (nolinks) econf_followSymlinks(false);         /* the default is not restated */
         if (t[2][0] != '-') econf_requireGroup((gid_t) atoi(t[2])); break;
       }
+      printf("rc=0\n");
+    } else if (!strcmp(c, "chdir")) {
+      /* only after the reads of a scenario: what was read must not depend on where the process is later on */
+      char *p = dec(t[1]); char *real = vpath(p); mkparents(real); mkdir(real, 0755);
+      if (thread_mode || chdir(real)) printf("driver-error chdir\n"); else printf("rc=0\n");
+      free(p); free(real);
+    } else if (!strcmp(c, "perms")) {
+      /* a requirement every file (0644) and directory (0755) of the harness meets: results as without it */
+      econf_requirePermissions(0400, 0100);
       printf("rc=0\n");
     } else if (!strcmp(c, "confdirs")) {
       int n; char **l = dec_list(t[1], &n);
@@ -659,6 +671,7 @@ static void *thread_main(void *p)
  *        econf_driver --threads <scratch-root> <scenario-file>...   one thread per file, private sub-roots */
 int main(int argc, char **argv)
 {
+  umask(022);          /* files 0644, directories 0755 whatever the caller's umask is */
   if (argc >= 4 && !strcmp(argv[1], "--threads")) {
     int k = argc - 3; thread_mode = 1;
     mkdir(argv[2], 0755);
